@@ -8057,7 +8057,10 @@ class IdentifierPreparer:
         unescaping behavior that reverses _escape_identifier.
         """
 
-        return value.replace(self.escape_to_quote, self.escape_quote)
+        value = value.replace(self.escape_to_quote, self.escape_quote)
+        if self._double_percents:
+            value = value.replace("%%", "%")
+        return value
 
     def validate_sql_phrase(self, element, reg):
         """keyword sequence filter.
